@@ -134,6 +134,30 @@ event log) and `src/lsp/backend.rs` four `#[cfg(incan_verif)]` log calls (handle
 harness is built with `rustflags = ["--cfg", "incan_verif"]` (harness/.cargo/config.toml); normal builds and
 the pinned suite never see the code. `[lints.rust] unexpected_cfgs` in /repo/Cargo.toml declares the cfg name.
 """)
+    out.append("""## Appendix F — false alarms corrected, and what the thorough tier adds
+
+Corrected false alarms (the machinery was wrong, the code was right; never listed as findings):
+* C14 model: `super::` above the modelled tree — the model clamped at the root, the real resolvers climb out of the
+  scratch tree and find nothing; the model now answers `none` there (`targetDir`).
+* C17 oracle: the expected value of the `list1` site printed the second element, not the constructed one.
+* C13 harness: positions `enumname` / `variant` / `classname` used match arms or an f-string that do not build under a
+  plain name either (baseline broken); rewritten so that every position has a building baseline, and a broken baseline
+  is itself reported.
+* C03 harness: spans of block-bodied expressions include the trailing line break, and spans inside f-string
+  interpolations are relative to the f-string — edits through them landed elsewhere; trimmed / routed through a
+  statement rule instead (the relative locations themselves are a recorded finding).
+* C01 oracle (thorough tier): programs whose integers leave the i64 range have no documented meaning (Python
+  continues with big integers, the compiled program wraps); they are detected through the Python run and dropped
+  before the correspondence, counted in the evidence.
+* C06 oracle (thorough tier): when an earlier operand has no compile-time value, the const evaluator reports the
+  error of a later operand where run time stops at the earlier one; both reject the initializer, so only an error
+  reported for an initializer that evaluates fine counts as a disagreement.
+
+The thorough tier (`./check Cxx --tier thorough`, 10–90 s per property) runs the same stages with 5–10× the inputs,
+every (position, keyword) pair for C13, every subset of derives for C20, deeper nesting, and `leanchecker` on the
+property module. It found two front-end panics on mutated repository files (non-identifier `import python "…"`,
+float literal overflowing to infinity) which became `fix:` commits and regression inputs of the quick tier.
+""")
     open(path, "w").write(head + "\n".join(out))
 
 
